@@ -69,8 +69,8 @@ def givensLayer (m n k : Nat) : List (Nat × Nat) :=
 /-- positions `(l, k)` visited by the left-unitary stage of `givens_decomposition`, in order
 (`for k in reversed(range(n - m + 1, n)): for l in range(m - n + k)`) -/
 def givensLeft (m n : Nat) : List (Nat × Nat) :=
-  ((List.range (m - 1)).map (fun t => n - m + 1 + t)).reverse.flatMap fun k =>
-    (List.range (m + k - n)).map fun l => (l, k)
+  -- `reversed(range(n - m + 1, n))` = `n - 1 - t` for `t = 0, …, m - 2`
+  (List.range (m - 1)).flatMap fun t => (List.range (m + (n - 1 - t) - n)).map fun l => (l, n - 1 - t)
 
 /-- `range(2 * n - 1)` of `fermionic_gaussian_decomposition` -/
 def gaussDepth (n : Nat) : Nat := 2 * n - 1
@@ -343,6 +343,81 @@ def decompGauss (tol : Rat) (W : Mat) (p : Nat) : Except String GaussOut := do
   let VT := (Mat.transpose V n).map fun row => List.zipWith (fun x d => x * d.conj) row diag
   let (ll, ld) ← decompSquare tol VT false
   .ok ⟨ls, ll, diag, ld⟩
+
+/-! ## Inner products of rows (hypothesis "orthonormal rows" of the property) -/
+
+/-- `Σ_{x < n} f x` over the rationals -/
+def rsum : Nat → (Nat → Rat) → Rat
+  | 0, _ => 0
+  | n + 1, f => rsum n f + f n
+
+/-- inner product of rows `i`, `i'` (first `n` columns), as its real and imaginary parts -/
+def rowDotRe (M : Mat) (n i i' : Nat) : Rat := rsum n fun x => (M.get i x * (M.get i' x).conj).re
+def rowDotIm (M : Mat) (n i i' : Nat) : Rat := rsum n fun x => (M.get i x * (M.get i' x).conj).im
+
+/-- do the first `m` rows have exactly orthonormal inner products? -/
+def orthonormalB (M : Mat) (m n : Nat) : Bool :=
+  (List.range m).all fun i => (List.range m).all fun i' =>
+    decide (rowDotRe M n i i' = if i = i' then 1 else 0) && decide (rowDotIm M n i i' = 0)
+
+/-! ## Executable exact-regime probes (hypotheses of the reconstruction theorems)
+
+`sweepExactB` / `leftExactB` follow the run of `colSweep` / `leftStage` and report whether every quantity that
+is compared with the tolerance is exactly zero or not below it; `OFV/Proofs/C11Exact.lean` proves that `true`
+implies the propositions `SweepExact` / `LeftExact` assumed by the theorems. -/
+
+def stepExactB (tol : Rat) (M : Mat) (i j : Nat) : Bool :=
+  let l := (M.get i (j - 1)).conj
+  let r := (M.get i j).conj
+  (!small tol l || decide (l = 0)) && (!small tol r || decide (r = 0)) &&
+  (!realish tol l r || (decide (l.im = 0) && decide (r.im = 0))) && (big tol r || decide (M.get i j = 0))
+
+def layerExactB (tol : Rat) (ai : Bool) : List (Nat × Nat) → Mat → Bool
+  | [], _ => true
+  | (i, j) :: ps, M =>
+    stepExactB tol M i j &&
+    (if ai || big tol (M.get i j).conj then
+      match givensElems tol (M.get i (j - 1)).conj (M.get i j).conj true with
+      | .ok G => layerExactB tol ai ps (rotateCols M G (j - 1) j)
+      | .error _ => true
+    else layerExactB tol ai ps M)
+
+def sweepExactB (tol : Rat) (ai : Bool) (layerOf : Nat → List (Nat × Nat)) : List Nat → Mat → Bool
+  | [], _ => true
+  | k :: ks, M =>
+    layerExactB tol ai (layerOf k) M &&
+    (match colLayer tol ai (layerOf k) M with
+     | .ok (_, M') => sweepExactB tol ai layerOf ks M'
+     | .error _ => true)
+
+def stepExactLB (tol : Rat) (M : Mat) (l k : Nat) : Bool :=
+  let a := M.get l k
+  let b := M.get (l + 1) k
+  (!small tol a || decide (a = 0)) && (!small tol b || decide (b = 0)) &&
+  (!realish tol a b || (decide (a.im = 0) && decide (b.im = 0))) && (big tol a || decide (a = 0))
+
+def leftExactB (tol : Rat) : List (Nat × Nat) → Mat → Bool
+  | [], _ => true
+  | (l, k) :: ps, M =>
+    stepExactLB tol M l k &&
+    (if big tol (M.get l k) then
+      match givensElems tol (M.get l k) (M.get (l + 1) k) false with
+      | .ok G => leftExactB tol ps (rotateRows M G l (l + 1))
+      | .error _ => true
+    else leftExactB tol ps M)
+
+/-- are all hypotheses of `square_decomposition_diagonalises` except orthonormality met by `Q`? -/
+def squareHypothesesB (tol : Rat) (Q : Mat) (ai : Bool) : Bool :=
+  let n := Q.length
+  Q.all (fun row => row.length == n) && sweepExactB tol ai (squareLayer n) (List.range (squareDepth n)) Q
+
+/-- the same for `givens_decomposition_diagonalises` (`m < n`) -/
+def givensHypothesesB (tol : Rat) (Q : Mat) (n : Nat) (ai : Bool) : Bool :=
+  let m := Q.length
+  decide (m < n) && Q.all (fun row => row.length == n) && leftExactB tol (givensLeft m n) Q &&
+  (match leftStage tol (givensLeft m n) Q (Mat.identity m) with
+   | .ok (M, _) => sweepExactB tol ai (givensLayer m n) (List.range (givensDepth n)) M
+   | .error _ => false)
 
 end C11
 end Model
